@@ -149,6 +149,21 @@ def run(ck):
                         break
     except Exception as e:
         ck.violation("run-error", "%s: %s" % (type(e).__name__, str(e)[:200]), dict(kind="slow-last-step"))
+    # ---- a stiff closed system (Robertson's kinetics, y1 + y2 + y3 = 1): lsoda switches to its stiff method and uses the Jacobian
+    try:
+        from pygom import common_models
+        mr = pg.lam(common_models.Robertson())
+        mr.initial_values = ([1.0, 0.0, 0.0], np.float64(0))
+        tr = np.concatenate([[0.0], 4.0 * np.logspace(-6, 4, 16)])
+        for nm, call in (("integrate", lambda: mr.integrate(tr[1:])), ("integrate2", lambda: mr.integrate2(tr[1:]))):
+            sol = np.asarray(call(), dtype=float)
+            ck.case(dict(kind="robertson", call=nm), nontrivial=True)
+            drift = float(np.max(np.abs(sol.sum(axis=1) - 1.0))) if np.all(np.isfinite(sol)) else float("inf")
+            if not drift <= 1e-6:
+                ck.violation("deterministic-total-drift", "Robertson's closed system, %s over t in [0, 4e4]: y1+y2+y3 drifts from 1 by %g"
+                             % (nm, drift), dict(kind="robertson", call=nm))
+    except Exception as e:
+        ck.violation("run-error", "Robertson: %s: %s" % (type(e).__name__, str(e)[:200]), dict(kind="robertson"))
     # ---- fixed closed models: a population of 60 million (every count must stay exact), and a compartment with a declared
     #      ceiling (a transition into a full compartment is refused whole — never applied in part)
     for name, (mk, x0f, T) in FIXED.items():
@@ -202,6 +217,15 @@ def fixed_closed(mk, x0, T, exact, gridded):
 
 def replay(ck, data):
     inp = data["input"]
+    if inp.get("kind") == "robertson":
+        import pg
+        from pygom import common_models
+        mr = pg.lam(common_models.Robertson())
+        mr.initial_values = ([1.0, 0.0, 0.0], np.float64(0))
+        tr = np.concatenate([[0.0], 4.0 * np.logspace(-6, 4, 16)])
+        sol = np.asarray(mr.integrate(tr[1:]) if inp.get("call") != "integrate2" else mr.integrate2(tr[1:]), dtype=float)
+        drift = float(np.max(np.abs(sol.sum(axis=1) - 1.0))) if np.all(np.isfinite(sol)) else float("inf")
+        return None if drift <= 1e-6 else "y1+y2+y3 drifts from 1 by %g" % drift
     if inp.get("kind") == "fixed-closed":
         import pg
         mk, x0, T = FIXED[inp["name"]]
